@@ -17,6 +17,14 @@ func init() {
 }
 
 func gen(rng *rand.Rand, tier core.Tier, emit core.Emit) {
+	// histories through the real reporter component (fx wiring, UDP server, handler goroutines) over loopback sockets
+	nw := 12
+	if tier == core.Thorough {
+		nw = 150
+	}
+	for i := 0; i < nw; i++ {
+		emit("whist", reputil.WireHistory(rng, 2+rng.Intn(8), 1+rng.Intn(2), 20, 0)...)
+	}
 	n := 300
 	if tier == core.Thorough {
 		n = 1500
@@ -96,6 +104,13 @@ func exec(op string, args []string) []string {
 	if op == "ucf" && len(args) == 3 {
 		var out []string
 		if txt, ok := core.Guard(func() { out = ucops.RunUC(world.DefaultOptions(), args[0], args[1], args[2]) }); !ok {
+			return []string{fmt.Sprintf("harness-panic:%s", txt)}
+		}
+		return out
+	}
+	if op == "whist" { // the same kind of history through the real reporter component over real sockets
+		var out []string
+		if txt, ok := core.Guard(func() { out = reputil.RunWireHistory(args) }); !ok {
 			return []string{fmt.Sprintf("harness-panic:%s", txt)}
 		}
 		return out
